@@ -341,7 +341,11 @@ func TestC14Release(t *testing.T) {
 						closedBelow++
 						// (the instance's Close method may have run on another goroutine - a context watcher's:
 						// the Close it called is then still under way; it is given time to finish)
-						waitFor(func() bool { return s.Context().Err() != nil }, 5*time.Second)
+						if !waitFor(func() bool { return s.Context().Err() != nil }, 5*time.Second) {
+							f = fail("C14", "context-cancelled", "closed-from-a-descendant's-disposal", "a scope that an instance of its innermost descendant closed from inside that descendant's disposal still has an uncancelled context 5 s later (cycle %d)", i)
+						}
+						// (whatever of that Close - or of a watcher's - is still under way below the scope: wait for it)
+						_ = s.Close()
 					} else {
 						_ = s.Close()
 					}
